@@ -36,7 +36,7 @@ CLAIMED["C09"] = ("same encoding as C08 (vcheck/ignoremodel.py): range test of s
     "trusts rustc's MIR printer, mirsym, z3; positions are full_moon byte offsets; 'inside the range = whole-file result' is outside", "5/C08-C09")
 
 CLAIMED["C06"] = ("measured-values kernel over all formatter functions (only formatter output reaches Shape::take_*_line / test_over_budget: provenance over executed MIR paths), text-rewritten-twice kernel over bounded symbolic strings; integer slice of format_table_constructor from the MIR (mirsym, real Shape methods inlined) executed on an arbitrary input spacing and on the canonical output spacing; z3 (cvc5 integer-encoding fallback) decides stability; two-pass replay",
-    "bounded symbolic model checking of the layout decision that reads the input layout: for <=3 fields, widths < 2^16, any shape/indent/column width: canonical-separator inputs are a fixed point, multi-line is a fixed point, the arithmetic cannot panic; arbitrary separator spacing is NOT stable (known finding F5)",
+    "bounded symbolic model checking of the layout decision that reads the input layout: for <=3 fields, widths < 2^16, any shape/indent/column width: canonical-separator inputs are a fixed point, multi-line is a fixed point, the arithmetic cannot panic; arbitrary separator spacing is NOT stable (known finding F5); predicates applied to input expressions whose redundant parentheses the same pass removes (contains_nested_function, is_brackets_string, is_string) answer for the inner expression; the comma-comment test of punctuated_inline_comments is invariant under the formatter's move of the comment behind the comma",
     "trusts rustc's MIR printer, mirsym, z3/cvc5; all other trial-format heuristics and the blank-line fold are outside the claim", "5/C06")
 
 CLAIMED["C01"] = ("mirsym over check_stmt_requires_semicolon (all statement variants x next statements, both feature sets), format_block (required => Some(;)), is_brackets_string vs a leftmost-token oracle, format_index/format_field padding, format_token comment newline; C05 composer for `- -`; z3; source replay",
